@@ -176,7 +176,7 @@ func oracle(args []string) {
 	todo = append(todo, optsdom.Cases(r, *n)...)
 	dist := map[string]int{}
 	evals := 0
-	var samples []any
+	samples := []any{}
 	for _, c := range todo {
 		c.Prop = *prop
 		fails, label, ok := eval(*prop, c)
@@ -186,8 +186,8 @@ func oracle(args []string) {
 		}
 		evals++
 		dist[label]++
-		if len(samples) < 3 && len(fails) == 0 && evals%7 == 1 {
-			samples = append(samples, map[string]any{"case": c, "failures": 0})
+		if len(samples) < 3 && evals%7 == 1 {
+			samples = append(samples, map[string]any{"case": c, "failures": len(fails)})
 		}
 		for _, f := range fails {
 			js, _ := json.Marshal(failure{Kind: "fail", Key: f.Key, What: f.What, Case: c})
